@@ -1,5 +1,17 @@
 """Per-property MANIFEST entries (source of MANIFEST.json; run harness/mkmanifest.py)."""
 ENTRIES = {
+    "C01": dict(
+        text="Theorems about the constructor model mk_screen, for all row lists, arities, control names and doses: stored ids are the "
+             "mapping's ids of exactly each experiment's (name, dose) / name; sentinel iff control name or dose <= 0; non-control "
+             "treatment ids, sample ids and plate ids are exactly the dense range below the experiment-space size, equal iff equal key; a "
+             "supplied mapping is kept verbatim or the constructor fails (not dense / not covering); a screen's own mappings are accepted "
+             "back unchanged on any rows they cover (superset stability); every id is strictly below the experiment-space size. The "
+             "sentinel constant is re-read from /repo on every run. Tied to the code by running the extracted constructor model and the real "
+             "Screen(...) / ExperimentSpace on generated screens (arity 1-3, ''/non-ASCII/control names in any column, negative/-0.0/0/subnormal/"
+             "repeated doses, own-superset and corrupted supplied mappings), comparing ids, all three mappings in stored order and sizes exactly.",
+        note="Trusted: Coq kernel, extraction, OCaml driver, harness. pandas drop_duplicates/sort_values/merge and numpy unique are modelled by "
+             "their documented effect; doses cross as order keys identifying -0.0 and 0.0; supplied mappings are assumed key-unique (batchie's own are); "
+             "NaN doses and names containing NUL are outside the generator."),
     "C07": dict(
         text="Theorems (all n, all n_chunks >= 1, all chunk orders with repeats, any value type): chunks partition the lower "
              "triangle, sizes differ by <= 1, any covering family assembles to the symmetric zero-diagonal matrix of the metric, "
